@@ -407,7 +407,13 @@ class SkipgramVectorizer(BaseEstimator, TransformerMixin):
             tuple(*self.kernel_args.values()),
         )
 
-        base_matrix = scipy.sparse.coo_matrix((data, (row, col)))
+        n_unique_tokens = len(self._token_dictionary_)
+        # The column id is head * n_unique_tokens + tail: the width is fixed, not inferred
+        # (at least one column: every row carries the (0, 0, 0.0) entry of build_skip_grams).
+        base_matrix = scipy.sparse.coo_matrix(
+            (data, (row, col)),
+            shape=(len(token_sequences), max(1, n_unique_tokens * n_unique_tokens)),
+        )
         column_sums = np.array(base_matrix.sum(axis=0))[0]
         self._column_is_kept = column_sums > 0
         self._kept_columns = np.where(self._column_is_kept)[0]
@@ -458,7 +464,10 @@ class SkipgramVectorizer(BaseEstimator, TransformerMixin):
             tuple(*self.kernel_args.values()),
         )
 
-        base_matrix = scipy.sparse.coo_matrix((data, (row, col)))
+        base_matrix = scipy.sparse.coo_matrix(
+            (data, (row, col)),
+            shape=(len(token_sequences), max(1, n_unique_tokens * n_unique_tokens)),
+        )
         result = base_matrix.tocsc()[:, self._column_is_kept].tocsr()
 
         return result
